@@ -833,6 +833,12 @@ func NewArray(elements []Object) Object {
 	return BigArray{elements: elements}
 }
 
+// IsContainer is true for arrays and maps (looking through references and registers).
+func IsContainer(o Object) bool {
+	t := Value(o).Type()
+	return t == ARRAY || t == MAP
+}
+
 // AppendTarget returns the slice append() can be used on for the result of array + x. Arrays share their
 // backing storage (b = a is no copy) and a + x appends in place when the storage has room left. That is only
 // invisible to the other arrays using that storage as long as the first free slot was never written: if it
